@@ -501,3 +501,8 @@ LEVEL_TEXT = ("Deductive: header precedence, override restriction (loop invarian
               "under an explicit rely condition (cache havoced at lock acquisition) are postconditions on the real functions, discharged by z3.")
 LEVEL_NOTE = "Trusted: CaseInsensitiveDict, threading.Lock as synchronisation point (rely), frozen timer, pyvc semantics (E9). Free interleavings are not decided."
 TECHNIQUE = "contract-based deductive verification: AST->z3 VC generation on the real functions (pyvc), rely/guarantee havoc at lock acquisition, sidecar contracts"
+
+
+# get_parameters_strategy's exclusion loop (verified in C17's module) is also what makes a user's OVERRIDE of a parameter win over a generated value of the same name -
+# required or not: get_parameters_value merges `copied.update(new)`, so an overridden name must not be generated again. The same job runs as part of this check.
+SHARED_JOBS = [("C17", "schemathesis.specs.openapi._hypothesis:get_parameters_strategy"), ("C13", "schemathesis.cli.commands.run:run#wiring")]  # + `st run` wiring: the C14_ clauses of that contract belong to this property
